@@ -41,10 +41,13 @@ def obligations(tier):
     npay = 16 if tier == 'quick' else 64
     wmax = 2   # weight 3 was attempted (thorough, 6000 s per query, three back ends): no verdict -> stated as not decided
     for mode, extra, nm in (('HDR', ['WMAX=%d' % wmax], 'hdr_weight%d' % wmax), ('HDR', ['BURST=1'], 'hdr_burst32'), ('PAY', ['WMAX=%d' % wmax], 'payload_weight%d' % wmax), ('PAY', ['BURST=1'], 'payload_burst32')):
-        ob = Obl('O3_strength_%s' % nm, 'c04_strength.c', units=[], defines=['MODE_%s=1' % mode, 'NPAY=%d' % npay] + extra,
-                 unwind=max(66, npay + 12), timeout=600 if tier == 'quick' else 6000, backend=PORTFOLIO,
+        np_ = npay
+        if mode == 'PAY' and 'WMAX' in extra[0] and tier != 'quick':
+            np_ = 24      # weight 2 over 64 payload bytes: no verdict in 64 min; 24 bytes is what returns
+        ob = Obl('O3_strength_%s' % nm, 'c04_strength.c', units=[], defines=['MODE_%s=1' % mode, 'NPAY=%d' % np_] + extra,
+                 unwind=max(66, np_ + 12), timeout=600 if tier == 'quick' else 2400, backend=PORTFOLIO,
                  desc='real checksum (sse4 unit + instruction model): %s' % nm,
-                 bound='header codeword 256 bits (zero base word; linearity from C18)' if mode == 'HDR' else 'payload 1..%d bytes + 4 footer bytes, zero base word' % npay)
+                 bound='header codeword 256 bits (zero base word; linearity from C18)' if mode == 'HDR' else 'payload 1..%d bytes + 4 footer bytes, zero base word' % np_)
         ob.units_note = ['crc32c.c -> crc32c_intel_sse4.c (included into the harness TU)']
         o.append(ob)
     return o
